@@ -37,8 +37,35 @@ structure StepRelO (wk : Option Int) (R : GW → Res → Prop) : Prop where
     R g (MySensors.alert (setNode g k n') m)
   smartSleep : ∀ g node, wk = some node → isKnown g node none = true → R g (smartSleep g node)
   setReboot : ∀ g k n, aget k g.sensors = some n → R g (MySensors.ret (setNode g k { n with reboot := true }))
-  setOta : ∀ g o, R g (MySensors.ret { g with ota := o })
+  /-- OTA session stores change, the firmware table does not -/
+  setStores : ∀ g o, o.firmware = g.ota.firmware → R g (MySensors.ret { g with ota := o })
+  /-- `make_update` stores a prepared image under a 16-bit type/version -/
+  storeFw : ∀ g fwt fwv img, 0 ≤ fwt ∧ fwt ≤ 0xFFFF ∧ 0 ≤ fwv ∧ fwv ≤ 0xFFFF → (prepareFw img).blocks ≤ 0xFFFF →
+    (∀ b ∈ img, b < 256) → R g (MySensors.ret { g with ota := { g.ota with firmware := storeFirmware g.ota.firmware (fwt, fwv) (prepareFw img) } })
   setCanLog : ∀ g, R g (MySensors.ret { g with canLog := true })
+
+theorem pickConfig_firmware (o : OtaState) (node : Int) (fid : Int × Int) (o' : OtaState)
+    (h : pickConfig o node = some (fid, o')) : o'.firmware = o.firmware := by
+  unfold pickConfig at h
+  split at h
+  · cases h; rfl
+  · split at h
+    · cases h; rfl
+    · cases h
+
+theorem pickBlock_firmware (o : OtaState) (node : Int) (o' : OtaState)
+    (h : pickBlock o node = some o') : o'.firmware = o.firmware := by
+  unfold pickBlock at h
+  split at h
+  · cases h; rfl
+  · split at h
+    · cases h; rfl
+    · cases h
+
+/-- well-formed controller ops: firmware images are byte strings -/
+def Op.wf : Op → Prop
+  | .update _ _ _ (some img) => ∀ b ∈ img, b < 256
+  | _ => True
 
 theorem isKnown_none_iff (g : GW) (node : Int) : isKnown g node none = true ↔ (aget node g.sensors).isSome := by
   unfold isKnown; cases aget node g.sensors <;> simp
@@ -195,16 +222,18 @@ theorem relo_streamRes (h : HandlerId) (g : GW) (m : Msg) : R g (MySensors.ret (
     · exact hR.ret g
     · split
       · exact hR.ret g
-      · split
-        · rw [configReply_g]; exact hR.setOta g _
-        · exact hR.setOta g _
+      · rename_i fid o' hp
+        split
+        · rw [configReply_g]; exact hR.setStores g _ (pickConfig_firmware _ _ _ _ hp)
+        · exact hR.setStores g _ (pickConfig_firmware _ _ _ _ hp)
   · unfold otaBlockResponse
     split
     · split
       · exact hR.ret g
-      · split
-        · rw [blockReply_g]; exact hR.setOta g _
-        · exact hR.setOta g _
+      · rename_i o' hp
+        split
+        · rw [blockReply_g]; exact hR.setStores g _ (pickBlock_firmware _ _ _ hp)
+        · exact hR.setStores g _ (pickBlock_firmware _ _ _ hp)
     · exact hR.ret g
   · exact hR.ret g
 
@@ -301,7 +330,9 @@ theorem relo_scheduleNode (fwt fwv : Int) (g : GW) (nid : Int) :
   split
   · exact hR.ret g
   · rename_i n hn
-    exact relo_then hR g { g with ota := _ } _ (hR.setOta g _) (hR.setReboot { g with ota := _ } nid n hn)
+    exact relo_then hR g _ _
+      (hR.setStores g { g.ota with unstarted := aerase nid g.ota.unstarted, started := aerase nid g.ota.started, requested := aset nid (fwt, fwv) g.ota.requested } rfl)
+      (hR.setReboot _ nid n hn)
 
 theorem relo_foldl_scheduleNode (fwt fwv : Int) (nids : List Int) (g : GW) :
     R g (MySensors.ret (nids.foldl (scheduleNode fwt fwv) g)) := by
@@ -309,15 +340,19 @@ theorem relo_foldl_scheduleNode (fwt fwv : Int) (nids : List Int) (g : GW) :
   | nil => exact hR.ret g
   | cons x xs ih => exact relo_then hR g _ _ (relo_scheduleNode hR fwt fwv g x) (ih _)
 
-theorem relo_makeUpdate (g : GW) (nids : List Int) (fwt fwv : Int) (image : Option (List Nat)) :
+theorem relo_makeUpdate (g : GW) (nids : List Int) (fwt fwv : Int) (image : Option (List Nat))
+    (hbytes : ∀ img, image = some img → ∀ b ∈ img, b < 256) :
     R g (MySensors.ret (makeUpdate g nids fwt fwv image)) := by
   unfold makeUpdate
   split
   · exact hR.ret g
-  · split
+  · rename_i hrange
+    split
     · split
       · exact hR.ret g
-      · exact relo_then hR g _ _ (hR.setOta g _) (relo_foldl_scheduleNode hR _ _ _ _)
+      · rename_i hb
+        exact relo_then hR g _ _ (hR.storeFw g fwt fwv _ (by simpa using hrange) (by omega) (hbytes _ rfl))
+          (relo_foldl_scheduleNode hR _ _ _ _)
     · split
       · exact hR.ret g
       · exact relo_foldl_scheduleNode hR _ _ _ _
